@@ -10,7 +10,7 @@
 // Script (text, produced from TLC's JSON by bin/vecread_check.py, pure reformatting):
 //   M <meshname>                       build the mesh of the catalogue, log {"e":"mesh",...}
 //   Q <op> <a> <b> <c> <n> <l1..ln>    append a query to the alphabet of the current mesh
-//   T <caseid> <nthreads> <reps>       run a case; followed by <nthreads> lines
+//   T <caseid> <nthreads> <reps> <free|lock>   run a case; followed by <nthreads> lines
 //   P <len> <i1..ilen>                 program of one thread: indices into the alphabet
 // Every case runs in a forked child, so that a crash of the library under
 // concurrent const queries (heap corruption by a racing scratch buffer, ...)
@@ -136,6 +136,16 @@ struct Ctx : ICtx {
         if (op == "it_f") { for (auto x : m.faces()) o.i(x.idx()); return o.done(); }
         if (op == "it_hf") { for (auto x : m.halffaces()) o.i(x.idx()); return o.done(); }
         if (op == "it_c") { for (auto x : m.cells()) o.i(x.idx()); return o.done(); }
+        if (op == "it_e2") { for (auto it = m.edges_begin(); it != m.edges_end(); ++it) o.i((*it).idx()); return o.done(); }
+        if (op == "it_he2") { for (auto it = m.halfedges_begin(); it != m.halfedges_end(); ++it) o.i((*it).idx()); return o.done(); }
+        if (op == "it_f2") { for (auto it = m.faces_begin(); it != m.faces_end(); ++it) o.i((*it).idx()); return o.done(); }
+        if (op == "it_hf2") { for (auto it = m.halffaces_begin(); it != m.halffaces_end(); ++it) o.i((*it).idx()); return o.done(); }
+        if (op == "it_c3") { for (auto it = m.cells_begin(); it != m.cells_end(); ++it) o.i((*it).idx()); return o.done(); }
+        if (op == "it_v3") { walk(o, m.v_iter()); return o.done(); }
+        if (op == "it_e3") { walk(o, m.e_iter()); return o.done(); }
+        if (op == "it_he3") { walk(o, m.he_iter()); return o.done(); }
+        if (op == "it_f3") { walk(o, m.f_iter()); return o.done(); }
+        if (op == "it_hf3") { walk(o, m.hf_iter()); return o.done(); }
         if (op == "it_v2") { for (auto it = m.vertices_begin(); it != m.vertices_end(); ++it) o.i((*it).idx()); return o.done(); }
         if (op == "it_c2") { for (auto it = m.c_iter(); it.valid(); ++it) o.i((*it).idx()); return o.done(); }
         if (op == "bit_v") { walk(o, m.bv_iter()); return o.done(); }
@@ -153,6 +163,30 @@ struct Ctx : ICtx {
         if (op == "vf") { walk(o, m.vf_iter(v, laps)); return o.done(); }
         if (op == "vc") { walk(o, m.vc_iter(v, laps)); return o.done(); }
         if (op == "vc_r") { range(o, m.vertex_cells(v)); return o.done(); }
+        // the range forms (pair of begin / end circulator)
+        if (op == "vv_r") { range(o, m.vertex_vertices(v)); return o.done(); }
+        if (op == "voh_r") { range(o, m.outgoing_halfedges(v)); return o.done(); }
+        if (op == "vih_r") { range(o, m.incoming_halfedges(v)); return o.done(); }
+        if (op == "ve_r") { range(o, m.vertex_edges(v)); return o.done(); }
+        if (op == "vhf_r") { range(o, m.vertex_halffaces(v)); return o.done(); }
+        if (op == "vf_r") { range(o, m.vertex_faces(v)); return o.done(); }
+        if (op == "hehf_r") { range(o, m.halfedge_halffaces(he)); return o.done(); }
+        if (op == "hef_r") { range(o, m.halfedge_faces(he)); return o.done(); }
+        if (op == "hec_r") { range(o, m.halfedge_cells(he)); return o.done(); }
+        if (op == "ehf_r") { range(o, m.edge_halffaces(e)); return o.done(); }
+        if (op == "ef_r") { range(o, m.edge_faces(e)); return o.done(); }
+        if (op == "ec_r") { range(o, m.edge_cells(e)); return o.done(); }
+        if (op == "hfhe_r") { range(o, m.halfface_halfedges(hf)); return o.done(); }
+        if (op == "hfe_r") { range(o, m.halfface_edges(hf)); return o.done(); }
+        if (op == "hfv_r") { range(o, m.halfface_vertices(hf)); return o.done(); }
+        if (op == "fv_r") { range(o, m.face_vertices(f)); return o.done(); }
+        if (op == "fhe_r") { range(o, m.face_halfedges(f)); return o.done(); }
+        if (op == "fe_r") { range(o, m.face_edges(f)); return o.done(); }
+        if (op == "che_r") { range(o, m.cell_halfedges(c)); return o.done(); }
+        if (op == "ce_r") { range(o, m.cell_edges(c)); return o.done(); }
+        if (op == "chf_r") { range(o, m.cell_halffaces(c)); return o.done(); }
+        if (op == "cf_r") { range(o, m.cell_faces(c)); return o.done(); }
+        if (op == "bhfhf_r") { range(o, m.boundary_halfface_halffaces(hf)); return o.done(); }
         if (op == "hehf") { walk(o, m.hehf_iter(he, laps)); return o.done(); }
         if (op == "hef") { walk(o, m.hef_iter(he, laps)); return o.done(); }
         if (op == "hec") { walk(o, m.hec_iter(he, laps)); return o.done(); }
@@ -200,6 +234,10 @@ struct Ctx : ICtx {
         if (op == "hf_verts_v") { for (auto x : m.get_halfface_vertices(HalfFaceHandle(q.a), VertexHandle(q.b))) o.i(x.idx()); return o.done(); }
         if (op == "hf_verts_he") { for (auto x : m.get_halfface_vertices(HalfFaceHandle(q.a), HalfEdgeHandle(q.b))) o.i(x.idx()); return o.done(); }
         if (op == "is_incident") { o.b(m.is_incident(FaceHandle(q.a), EdgeHandle(q.b))); return o.done(); }
+        if (op == "opp_he") { auto x = m.opposite_halfedge(he); o.i(x.from_vertex().idx()); o.i(x.to_vertex().idx()); o.i(m.opposite_halfedge_handle(he).idx()); return o.done(); }
+        if (op == "flags") { o.b(m.has_vertex_bottom_up_incidences()); o.b(m.has_edge_bottom_up_incidences()); o.b(m.has_face_bottom_up_incidences());
+                             o.b(m.has_full_bottom_up_incidences()); o.b(m.deferred_deletion_enabled()); o.b(m.fast_deletion_enabled()); return o.done(); }
+        if (op == "vpos_all") { for (auto const &p : m.vertex_positions()) o.vec(p); return o.done(); }
         if (op == "n_verts_in_cell") { o.i((long long)m.n_vertices_in_cell(c)); return o.done(); }
         // ---- boundary, valence, flags
         if (op == "bnd_v") { o.b(m.is_boundary(v)); return o.done(); }
@@ -238,6 +276,7 @@ struct Ctx : ICtx {
         if (op == "pc_fs") { PropertyPtr<std::string, Entity::Face> cp = *p_fs; const auto &ccp = cp; std::string val = ccp[f]; o.str(val); return o.done(); }
         if (op == "p_all_vi") { const auto &p = *p_vi; for (auto it = p.begin(); it != p.end(); ++it) o.i(*it); return o.done(); }
         if (op == "p_all_cb") { const auto &p = *p_cb; for (bool x : p.data_vector()) o.b(x); return o.done(); }
+        if (op == "p_get") { auto g = m.template get_property<int, Entity::Vertex>("rd:vi"); o.b(g.has_value()); if (g) { const auto &p = *g; o.i(p[v]); } return o.done(); }
         if (op == "p_meta") { const auto &p = *p_ed; o.str(p.name()); o.i((long long)p.size()); o.b(p.persistent()); o.b(p.shared()); o.d(p.def()); o.b((bool)p); return o.done(); }
         if (op == "p_exists") { o.b(m.template property_exists<int, Entity::Vertex>("rd:vi")); o.b(m.template property_exists<int, Entity::Vertex>("rd:none"));
                                 o.i((long long)m.template n_props<Entity::Vertex>()); o.i((long long)m.template n_persistent_props<Entity::Vertex>()); return o.done(); }
@@ -248,12 +287,19 @@ struct Ctx : ICtx {
             if (op == "tet_cv_hf") { for (auto x : m.get_cell_vertices(hf)) o.i(x.idx()); return o.done(); }
             if (op == "tet_opp_v") { o.i(m.halfface_opposite_vertex(hf).idx()); return o.done(); }
             if (op == "tet_opp_hf") { o.i(m.vertex_opposite_halfface(CellHandle(q.a), VertexHandle(q.b)).idx()); return o.done(); }
+            if (op == "tet_cv_hf_he") { for (auto x : m.get_cell_vertices(HalfFaceHandle(q.a), HalfEdgeHandle(q.b))) o.i(x.idx()); return o.done(); }
+            if (op == "tet_tv_r") { range(o, m.tet_vertices(c)); return o.done(); }
             if (op == "tet_tv") { walk(o, m.tv_iter(c, laps)); return o.done(); }
         }
         if constexpr (is_hex) {
             if (op == "hex_opp") { o.i(m.opposite_halfface_handle_in_cell(HalfFaceHandle(q.a), CellHandle(q.b)).idx()); return o.done(); }
             if (op == "hex_orient") { o.i((long long)m.orientation(HalfFaceHandle(q.a), CellHandle(q.b))); return o.done(); }
             if (op == "hex_dirs") { o.i(m.xfront_halfface(c).idx()); o.i(m.xback_halfface(c).idx()); o.i(m.yfront_halfface(c).idx()); o.i(m.yback_halfface(c).idx()); o.i(m.zfront_halfface(c).idx()); o.i(m.zback_halfface(c).idx()); return o.done(); }
+            if (op == "hex_oriented") { o.i(m.get_oriented_halfface((unsigned char)q.b, CellHandle(q.a)).idx()); return o.done(); }
+            if (op == "hex_neigh_out") { o.i(m.neighboring_outside_halfface(HalfFaceHandle(q.a), HalfEdgeHandle(q.b)).idx()); return o.done(); }
+            if (op == "hex_hv_r") { range(o, m.hex_vertices(c)); return o.done(); }
+            if (op == "hex_csc_r") { range(o, m.cell_sheet_cells(CellHandle(q.a), (unsigned char)q.b)); return o.done(); }
+            if (op == "hex_hfshf_r") { range(o, m.halfface_sheet_halffaces(hf)); return o.done(); }
             if (op == "hex_hv") { walk(o, m.hv_iter(c, laps)); return o.done(); }
             if (op == "hex_csc") { walk(o, m.csc_iter(CellHandle(q.a), (unsigned char)q.b)); return o.done(); }
             if (op == "hex_hfshf") { walk(o, m.hfshf_iter(hf)); return o.done(); }
@@ -319,7 +365,7 @@ template <class MeshT> static void add_polymix(MeshT &m, const std::string &n) {
     m.add_edge(VertexHandle(11), VertexHandle(12)); // dangling edge; vertex 13 is isolated
 }
 
-static std::unique_ptr<ICtx> make_ctx(const std::string &name) {
+std::unique_ptr<ICtx> make_ctx(const std::string &name) {
     std::unique_ptr<ICtx> r;
     auto finish = [&](auto *c, const char *type) { c->name = name; c->type = type; c->box.type = type; c->make_props(); r.reset(c); };
     if (name == "tet1") { auto *c = new Ctx<GeometricTetrahedralMeshV3d>(); auto &m = *c->mesh; using P = Vec3d;
@@ -349,7 +395,11 @@ static volatile int *g_phase = nullptr;
 static void set_phase(int p) { if (g_phase) *g_phase = p; }
 
 // the programs of a case, one after the other on ONE thread (same repetitions)
-static void run_sequential_replay(const ICtx &ctx, int reps, const std::vector<std::vector<int>> &progs) {
+std::unique_ptr<ICtx> make_ctx(const std::string &name);
+static void run_sequential_replay(const ICtx &ref, int reps, const std::vector<std::vector<int>> &progs) {
+    std::unique_ptr<ICtx> fresh = make_ctx(ref.name);       // a fresh object, like the one the threads shared
+    fresh->alpha = ref.alpha;
+    const ICtx &ctx = *fresh;
     size_t sink = 0;
     for (auto const &p : progs)
         for (int r = 0; r < reps; ++r)
@@ -357,31 +407,50 @@ static void run_sequential_replay(const ICtx &ctx, int reps, const std::vector<s
     if (sink == (size_t)-1) fputs("", stderr);
 }
 
-static void run_case(const ICtx &ctx, long caseid, int reps, const std::vector<std::vector<int>> &progs) {
+std::unique_ptr<ICtx> make_ctx(const std::string &name);
+
+// One case.  `ref` is the REFERENCE copy of the mesh (the parent's object, already used for the projection and
+// for nothing the threads share); the object the reader threads share is built here, freshly, by the same
+// construction code, and is NOT touched by any const query before the threads start: the first call of every
+// query on that object comes from the concurrent threads (a lazily filled cache must show).
+//   lockstep = false: threads run freely after a common start
+//   lockstep = true : all threads (same program) meet at a barrier before every query, so that the first calls
+//                     of one query on the shared object overlap
+static void run_case(const ICtx &ref, long caseid, int reps, bool lockstep, const std::vector<std::vector<int>> &progs) {
     const size_t T = progs.size();
     std::set<int> used; for (auto const &p : progs) for (int i : p) used.insert(i);
-    for (int i : used) if (i < 0 || (size_t)i >= ctx.alpha.size()) { fprintf(stderr, "readers_exec: program index %d outside the alphabet\n", i); exit(3); }
-    Json j; j.begin_obj(); j.kv("e", "run"); j.kv("case", (long long)caseid); j.kv("mesh", ctx.name);
-    j.kv("threads", (long long)T); j.kv("reps", (long long)reps);
-    put_proj(j, "pre", ctx);
+    for (int i : used) if (i < 0 || (size_t)i >= ref.alpha.size()) { fprintf(stderr, "readers_exec: program index %d outside the alphabet\n", i); exit(3); }
+    if (lockstep) for (auto const &p : progs) if (p.size() != progs[0].size()) { fprintf(stderr, "readers_exec: lockstep needs programs of equal length\n"); exit(3); }
+    std::unique_ptr<ICtx> shared_owner = make_ctx(ref.name);
+    const ICtx &shared = *shared_owner;
+    const std::vector<Query> &alpha = ref.alpha;
+    Json j; j.begin_obj(); j.kv("e", "run"); j.kv("case", (long long)caseid); j.kv("mesh", ref.name);
+    j.kv("threads", (long long)T); j.kv("reps", (long long)reps); j.kv("lockstep", lockstep);
+    put_proj(j, "pre", ref);                      // projection of the reference copy
     set_phase(1);
-    // single-threaded reference, before the concurrent phase
+    // single-threaded reference answers, taken on the REFERENCE copy
     // (one entry per query of the alphabet; 0 for a query no thread of this case uses)
-    auto put_seq = [&](const char *key) {
+    auto put_seq = [&](const char *key, const ICtx &on) {
         j.key(key); j.begin_arr();
-        for (size_t i = 0; i < ctx.alpha.size(); ++i) {
+        for (size_t i = 0; i < alpha.size(); ++i) {
             j.comma();
-            if (used.count((int)i)) j.raw(ctx.eval(ctx.alpha[i])); else j.raw("0");
+            if (used.count((int)i)) j.raw(on.eval(alpha[i])); else j.raw("0");
             j.need_comma = true;
         }
         j.end_arr();
     };
-    put_seq("seq");
-    // concurrent phase: all threads start together and run their program `reps` times;
-    // the answers of the first and of the last repetition are kept
+    put_seq("seq", ref);
+    // concurrent phase on the fresh shared object: all threads start together and run their program `reps`
+    // times; the answers of the first and of the last repetition are kept
     set_phase(2);
     std::vector<std::vector<std::string>> first(T), last(T);
     std::atomic<size_t> ready{0}; std::atomic<bool> go{false};
+    std::atomic<size_t> arrived{0}; std::atomic<size_t> generation{0};
+    auto barrier = [&] {
+        const size_t gen = generation.load(std::memory_order_acquire);
+        if (arrived.fetch_add(1, std::memory_order_acq_rel) + 1 == T) { arrived.store(0, std::memory_order_relaxed); generation.store(gen + 1, std::memory_order_release); }
+        else while (generation.load(std::memory_order_acquire) == gen) std::this_thread::yield();
+    };
     std::vector<std::thread> th;
     for (size_t t = 0; t < T; ++t) {
         th.emplace_back([&, t] {
@@ -393,7 +462,8 @@ static void run_case(const ICtx &ctx, long caseid, int reps, const std::vector<s
                 const bool keep_f = r == 0, keep_l = r == reps - 1;
                 if (keep_l) l.clear();
                 for (int i : progs[t]) {
-                    std::string a = ctx.eval(ctx.alpha[(size_t)i]);
+                    if (lockstep) barrier();
+                    std::string a = shared.eval(alpha[(size_t)i]);
                     if (keep_f) f.push_back(a);
                     if (keep_l) l.push_back(std::move(a));
                 }
@@ -411,30 +481,62 @@ static void run_case(const ICtx &ctx, long caseid, int reps, const std::vector<s
         j.end_arr();
     };
     put_runs("first", first); put_runs("last", last);
-    // single-threaded again, after the concurrent phase
+    // single-threaded again, on the shared object after the concurrent phase, and its projection
     set_phase(3);
-    put_seq("seq2");
-    put_proj(j, "post", ctx);
+    put_seq("seq2", shared);
+    put_proj(j, "post", shared);
     j.end_obj(); vx::emit(j);
     set_phase(4);
 }
 
-// light structural check of one ndjson line produced by a child: printable ASCII only, one line,
-// brackets balanced outside strings.  A child whose heap was corrupted by racing library code can
-// produce garbage; that must not reach the trace as a broken line.
-static bool well_formed_line(const std::string &t) {
-    if (t.size() < 3 || t[0] != '{' || t[t.size() - 1] != '\n' || t[t.size() - 2] != '}') return false;
-    std::string st; bool in_str = false;
-    for (size_t i = 0; i + 1 < t.size(); ++i) {
-        const unsigned char c = (unsigned char)t[i];
-        if (c < 0x20 || c >= 0x7f) return false;
-        if (in_str) { if (c == '\\') { ++i; if (i + 1 >= t.size()) return false; } else if (c == '"') in_str = false; continue; }
-        if (c == '"') in_str = true;
-        else if (c == '{' || c == '[') st.push_back((char)c);
-        else if (c == '}' || c == ']') { if (st.empty() || st.back() != (c == '}' ? '{' : '[')) return false; st.pop_back(); if (st.empty() && i + 2 != t.size()) return false; }
-        else if (!(std::isalnum(c) || c == '-' || c == '.' || c == ',' || c == ':' || c == '+')) return false;
+// strict JSON syntax check of one ndjson line produced by a child (printable ASCII only).  A child whose heap was
+// overwritten by racing library code can produce garbage; that must not reach the trace as a line TLC cannot parse.
+struct JsonSyntax {
+    const std::string &t; size_t i = 0; int depth = 0;
+    explicit JsonSyntax(const std::string &s) : t(s) {}
+    bool lit(const char *w) { size_t n = strlen(w); if (t.compare(i, n, w) != 0) return false; i += n; return true; }
+    bool str() {
+        if (t[i] != '"') return false;
+        for (++i; i < t.size(); ++i) {
+            const unsigned char c = (unsigned char)t[i];
+            if (c < 0x20 || c >= 0x7f) return false;
+            if (c == '\\') { ++i; if (i >= t.size() || !strchr("\"\\/bfnrtu", t[i])) return false; continue; }
+            if (c == '"') { ++i; return true; }
+        }
+        return false;
     }
-    return st.empty() && !in_str;
+    bool num() {
+        size_t s = i; if (t[i] == '-') ++i;
+        size_t d = i; while (i < t.size() && isdigit((unsigned char)t[i])) ++i;
+        if (i == d || i - d > 18) return false;
+        if (i < t.size() && t[i] == '.') { ++i; size_t f = i; while (i < t.size() && isdigit((unsigned char)t[i])) ++i; if (i == f) return false; }
+        return i > s;
+    }
+    bool val() {
+        if (i >= t.size() || ++depth > 64) return false;
+        bool ok;
+        const char c = t[i];
+        if (c == '{') {
+            ++i; ok = true;
+            if (t[i] == '}') ++i;
+            else for (;;) { if (!str() || i >= t.size() || t[i] != ':') { ok = false; break; } ++i; if (!val()) { ok = false; break; }
+                            if (t[i] == ',') { ++i; continue; } if (t[i] == '}') { ++i; break; } ok = false; break; }
+        } else if (c == '[') {
+            ++i; ok = true;
+            if (t[i] == ']') ++i;
+            else for (;;) { if (!val()) { ok = false; break; } if (t[i] == ',') { ++i; continue; } if (t[i] == ']') { ++i; break; } ok = false; break; }
+        } else if (c == '"') ok = str();
+        else if (c == 't') ok = lit("true"); else if (c == 'f') ok = lit("false");
+        else ok = num();
+        --depth;
+        return ok;
+    }
+};
+static bool well_formed_line(const std::string &t) {
+    if (t.size() < 3 || t[0] != '{' || t[t.size() - 1] != '\n') return false;
+    if (t.compare(0, 10, "{\"e\":\"run\"") != 0) return false;
+    JsonSyntax p(t);
+    return p.val() && p.i + 1 == t.size();
 }
 
 // run `body` in a forked child under a time limit, its stdout captured through a pipe;
@@ -489,7 +591,9 @@ int main(int argc, char **argv) {
             ctx->alpha.push_back(q);
         } else if (tag == "T") {
             need();
-            long caseid; int T, reps; ss >> caseid >> T >> reps;
+            long caseid; int T, reps; std::string mode; ss >> caseid >> T >> reps >> mode;
+            if (mode != "free" && mode != "lock") { fprintf(stderr, "readers_exec: T line needs a mode (free|lock)\n"); return 3; }
+            const bool lockstep = mode == "lock";
             std::vector<std::vector<int>> progs((size_t)T);
             for (auto &p : progs) {
                 if (!std::getline(in, line)) { fprintf(stderr, "readers_exec: missing program line\n"); return 3; }
@@ -505,7 +609,7 @@ int main(int argc, char **argv) {
             }
             *g_phase = 0;
             std::string text, ignored;
-            const int st = in_child([&] { run_case(*ctx, caseid, reps, progs); }, text);
+            const int st = in_child([&] { run_case(*ctx, caseid, reps, lockstep, progs); }, text);
             const bool corrupt = st == 0 && *g_phase == 4 && !well_formed_line(text);
             if (st == 0 && *g_phase == 4 && !corrupt) {
                 fwrite(text.data(), 1, text.size(), stdout); fflush(stdout);
@@ -515,7 +619,7 @@ int main(int argc, char **argv) {
                 int st2 = -1;
                 if (phase >= 2) st2 = in_child([&] { run_sequential_replay(*ctx, reps, progs); }, ignored);
                 Json j; j.begin_obj(); j.kv("e", "crash"); j.kv("case", (long long)caseid); j.kv("mesh", ctx->name);
-                j.kv("threads", (long long)T); j.kv("reps", (long long)reps); j.kv("phase", (long long)phase);
+                j.kv("threads", (long long)T); j.kv("reps", (long long)reps); j.kv("lockstep", lockstep); j.kv("phase", (long long)phase);
                 j.kv("status", (long long)st); j.kv("corrupt_output", corrupt); j.kv("seq_replay_ok", st2 == 0);
                 j.end_obj(); vx::emit(j);
             }
